@@ -483,7 +483,8 @@ func (loader *Loader) resolveComponent(doc *T, ref string, path *url.URL, resolv
 				}
 			}
 
-			if cursor == nil {
+			// an absent optional member (items of a schema without items) is a nil pointer of its type
+			if v := reflect.ValueOf(cursor); cursor == nil || (v.Kind() == reflect.Ptr && v.IsNil()) {
 				return nil, failedToResolveRefFragmentPart(ref, pathPart)
 			}
 		}
